@@ -288,8 +288,13 @@ def write_evidence(mod, tier, seed, stats, bounds, wall, n_viol, known_counts,
         "wall_s": round(wall, 2),
         "violations": n_viol,
     }
-    os.makedirs(os.path.join(VERIF, "evidence"), exist_ok=True)
-    path = os.path.join(VERIF, "evidence", mod.ID + ".json")
+    # evidence describes /repo itself; a run against a scratch copy (seeded
+    # changes, VERIF_REPO elsewhere) must not overwrite it
+    evdir = os.environ.get("VERIF_EVIDENCE_DIR") or (
+        os.path.join(VERIF, "evidence") if os.path.realpath(REPO) == "/repo"
+        else os.path.join("/dev/shm", "verif-evidence-scratch"))
+    os.makedirs(evdir, exist_ok=True)
+    path = os.path.join(evdir, mod.ID + ".json")
     tmp = path + ".tmp"
     with open(tmp, "w", encoding="utf-8") as fh:
         json.dump(ev, fh, indent=1, default=repr, sort_keys=True)
